@@ -36,6 +36,9 @@ func timeoutFor(quick, thorough time.Duration) func(string) time.Duration {
 	}
 }
 
+// nbOf is the number of batches of a property in a tier (exhaustive parts split their space by batch index).
+func nbOf(id, tier string) int { return h.Registry[id].Batches(tier) }
+
 func tiered(quick, thorough int) func(string) int {
 	return func(tier string) int {
 		if tier == "thorough" {
